@@ -40,7 +40,7 @@ OUT_ONLY_BAD = ["BUY", "AIRDROP", "HARDFORK", "INCOME", "INTEREST", "MINING", "W
 
 
 def budget(tier: str) -> Dict[str, Any]:
-    return {"shards": 16, "examples": 40 if tier == "quick" else 400, "shrink": False}
+    return {"shards": 16, "examples": 56 if tier == "quick" else 500, "shrink": False}
 
 
 # ------------------------------------------------------------------------------------------------ fault catalogue
@@ -185,11 +185,14 @@ def applicable_faults(case: Dict[str, Any]) -> Dict[str, List[Any]]:
 
 @st.composite
 def strategy_case(draw: Any) -> Dict[str, Any]:
-    base = draw(filegen.file_case(countries=cli.COUNTRIES, hist=HIST, windows=False, schedules=False))
+    base = draw(filegen.file_case(countries=cli.COUNTRIES, hist=HIST, windows=False, schedules=False, flavours=("mixed", "mixed", "mixed", "buy_only", "income_only", "transfer_heavy")))
     base["schedule"] = None
     base["from"] = base["to"] = None
     faults = applicable_faults(base)
-    kind = draw(st.sampled_from(sorted(faults)))
+    # fault classes with many applicable positions (data-row faults) are drawn more often than one-shot ones (config / CLI):
+    # whether a row-level fault is noticed can depend on the row (e.g. only rows that later take part in a gain/loss pairing)
+    weighted = [k for k in sorted(faults) for _ in range(1 + min(3, len(faults[k]) - 1))]
+    kind = draw(st.sampled_from(weighted))
     position = draw(st.sampled_from(faults[kind]))
     base["fault"] = {"kind": kind, "position": list(position) if isinstance(position, tuple) else position, "variant": draw(st.integers(0, 5))}
     base["check_base"] = draw(st.integers(0, 5)) == 0
